@@ -7,6 +7,8 @@ MODULES = [
     "contracts.c_utils",
     "contracts.c_parser",
     "contracts.c_tz",
+    "contracts.c_tzcache",
+    "contracts.c_strict",
 ]
 
 STANDINS = [
@@ -19,6 +21,8 @@ LEVELS = {
     "C07": "proof",
     "C01": "other",
     "C12": "proof",
+    "C19": "proof",
+    "C10": "proof",
 }
 
 _COMMON = [
